@@ -30,6 +30,7 @@ import (
 	"github.com/ontio/ontology-crypto/keypair"
 	"github.com/polynetwork/poly/common"
 	"github.com/polynetwork/poly/common/log"
+	"github.com/polynetwork/poly/core/signature"
 )
 
 type BlockList []*Block
@@ -462,6 +463,18 @@ func (pool *BlockPool) newBlockCommitment(msg *blockCommitMsg) error {
 			}
 			// one committer, one commit
 			return errDupCommit
+		}
+	}
+
+	// the committer vouches for the endorsements it carries, but only its own signature has been verified so far:
+	// drop every entry that is not a signature of the named endorser over the committed block hash, so that it is
+	// neither counted as support nor copied into the sealed block
+	for endorser, sig := range msg.EndorsersSig {
+		pk := pool.server.peerPool.GetPeerPubKey(endorser)
+		if pk == nil || signature.Verify(pk, msg.CommitBlockHash[:], sig) != nil {
+			log.Warnf("commit msg from %d for block %d carries an invalid endorsement of %d, ignored",
+				msg.Committer, blkNum, endorser)
+			delete(msg.EndorsersSig, endorser)
 		}
 	}
 
